@@ -483,6 +483,8 @@ void Walker::judgeProcessing(Inst& in, const char* what, const Cfg& before, cons
 				for (auto& r : applied) o << " " << TTN[r.type] << "->" << r.dest;
 				o << "; before " << before.str() << "; library " << lib.str() << "; prescribed " << m.cfg.str() << (sameA ? " (resumable marks differ)" : "");
 				S.violation("C02", o.str());
+				// C04: with vetoed or substituted rounds in the step, the outcome must be that of the approved rounds only
+				if (rs.size() >= 2 || (!rs.empty() && lastApproved != (int) rs.size() - 1)) S.violation("C04", "the final configuration is not the one the approved rounds lead to: " + o.str());
 			}
 		} else if (transitionReqs >= 1) st.cls("steps_agreeing_with_model");
 	}
